@@ -83,6 +83,16 @@ CHECKS = {
          "Random bodies and data are rendered through 10 composition kinds under three content types and three name extensions; the result must equal the harness-assembled expectation built from a separate plush.Render of the body in scope.New()+data (JS-escaped and wrapped in the layout as the property states), contentFor must emit nothing where defined, undefined contentOf without default must fail, and the recording helpers inside the body must fire exactly as often as inline.",
          "Trusted: html/template's JSEscapeString as the meaning of JS escaping; the harness' assembly rules transcribed from the property. Detects disagreement between two routes, not a common error of both.",
          "DESIGN.md §5 C17"),
+ "C13": ("exploration",
+         "runtime monitor: repeated / interleaved executions of generated templates through every execution route (Exec, Clone, Render, Parse+Exec, cache off / cold / warm) compared for equality of output, error and recorded side-effect trace; deep structural hash of the parsed program (hook H2) before and after every Exec",
+         "Per case 1-4 generated templates (biased to hash literals with side-effecting values and duplicate keys) are executed in an interleaved history through all routes and then 30/300 more times with a fresh parse; each execution gets an equal, freshly built context. All observations of one text must be identical and the program's structural hash must not change across an Exec. Nondeterminism that depends on Go map order is probabilistic: 30 repeats of a 4-entry literal miss it with p < 0.01.",
+         "Trusted: the reflection hasher covers every field reachable from *ast.Program; equal contexts are built by one constructor.",
+         "DESIGN.md §5 C13"),
+ "C10": ("exploration",
+         "runtime monitor: exhaustive bounded enumeration of New/Set histories driven on real plush.Context values, every Value/Has observation compared with a chain-of-scopes reference model; long random histories on top",
+         "All histories of length <= 5 (quick) / <= 6 (thorough) over {New(i), Set(i,k,v)} with 3 keys (one a built-in helper's name) and 3 values (incl. nil) from 8 kinds of root are executed on fresh real contexts without state merging and compared with the model after the last operation (prefixes are histories themselves); random histories of length 200 on up to 8 contexts are compared after every operation.",
+         "Trusted: the 15-line reference model; func pointer identity to recognise the built-in helper.",
+         "DESIGN.md §5 C10"),
 }
 NOT_YET = "check not built yet in this round (see DESIGN.md §5 for the planned monitor)"
 
